@@ -273,9 +273,47 @@ where
     async fn load_tree(&mut self) -> StdResult<(), Self::Error> {
         let mut commits = Vec::new();
 
+        // A process that died whilst appending leaves a partial
+        // record at the end of the file; the records before it
+        // are intact so discard the torn tail instead of
+        // refusing to open the event log
+        let file_len = vfs::metadata(&self.data).await?.len();
+        let mut valid_len = self.header_len() as u64;
+        let mut torn = false;
+
         let mut it = self.iter(false).await?;
-        while let Some(record) = it.next().await? {
-            commits.push(record.commit());
+        loop {
+            match it.next().await {
+                Ok(Some(record)) => {
+                    let end = record.offset().end;
+                    if end > file_len {
+                        torn = true;
+                        break;
+                    }
+                    commits.push(record.commit());
+                    valid_len = end;
+                }
+                Ok(None) => break,
+                Err(Error::Io(e))
+                    if e.kind() == std::io::ErrorKind::UnexpectedEof =>
+                {
+                    torn = true;
+                    break;
+                }
+                Err(e) => return Err(e.into()),
+            }
+        }
+
+        if torn {
+            tracing::warn!(
+                path = %self.data.display(),
+                file_len = %file_len,
+                valid_len = %valid_len,
+                "event_log::discard_torn_tail");
+            let file =
+                OpenOptions::new().write(true).open(&self.data).await?;
+            let mut guard = file.lock_write().await.map_err(|e| e.error)?;
+            guard.inner_mut().set_len(valid_len).await?;
         }
 
         self.tree = CommitTree::new();
